@@ -52,6 +52,7 @@ type Op struct {
 	Batch  []BatchEnt `json:"batch,omitempty"`
 	Csize  int        `json:"csize,omitempty"`
 	Q      []Cmp      `json:"q,omitempty"`
+	Qs     [][]Cmp    `json:"qs,omitempty"` // extra query chains evaluated by an obs
 	Close  bool       `json:"close,omitempty"`
 	Create bool       `json:"create,omitempty"`
 	H      int        `json:"h,omitempty"`
@@ -153,6 +154,7 @@ type Runner struct {
 	hands   map[int]*sod.Search
 	nev     int
 	lastMsg string
+	xqs     [][]Cmp
 	recs    []Vals
 	recIdx  map[string]int
 }
@@ -393,7 +395,9 @@ func (r *Runner) step(op *Op) {
 	case "reopen":
 		r.reopen(op)
 	case "obs":
+		r.xqs = op.Qs
 		r.obs(false, op.Light)
+		r.xqs = nil
 	case "eval":
 		r.eval(op)
 	case "collect":
@@ -686,7 +690,6 @@ func (r *Runner) collect(op *Op) {
 		}
 		e["items"] = items
 	}
-	delete(r.hands, op.H)
 	r.emit(e)
 }
 
